@@ -191,7 +191,7 @@ type recHandler struct {
 	// receiver of C03). It is only ever touched by the connection's reader goroutine; the embedded handler
 	// above is the one the library calls ReplyBody on in the writer goroutine. Sharing one object between the
 	// two goroutines would be a race of the handler's author, not of the library.
-	rx service.JT808Handler
+	rx    service.JT808Handler
 	w     *world
 	conn  int
 	parse bool
